@@ -17,20 +17,29 @@ package fasthttp
 //@   property C28 C29
 //@   frame assumed
 //@   modifies args
+//@   requires[entries-own-their-buffers] forall a in [0, len(args)): forall b in [0, len(args)): a != b ==> cell(args, a) != cell(args, b)
+//@   ensures[no-slot-shares-an-element] forall a in [0, len(old(args))): forall b in [0, len(old(args))): a != b ==> cell(r[:len(old(args))], a) != cell(r[:len(old(args))], b)
 //@   ensures[length] len(r) == kept(old(args), key, len(old(args)))
 //@   ensures[order-kept] forall j in [0, len(old(args))): !keyIs(old(args), key, j) ==> cell(r, kept(old(args), key, j)) == cell(old(args), j)
 //@   loop 1:
 //@     invariant[range] 0 <= i && i <= n && n <= len(old(args)) && n == len(args) && rgn(args) == rgn(old(args)) && off(args) == off(old(args))
 //@     invariant[done-count] kept(old(args), key, i + len(old(args)) - n) == i
 //@     invariant[tail-shifted] forall t in [i, n): cell(args, t) == cell(old(args), t + len(old(args)) - n)
+//@     invariant[slots-distinct] forall a in [0, len(old(args))): forall b in [0, len(old(args))): a != b ==> cell(args[:len(old(args))], a) != cell(args[:len(old(args))], b)
 //@     invariant[head-kept] forall j in [0, i + len(old(args)) - n): !keyIs(old(args), key, j) ==> 0 <= kept(old(args), key, j) && kept(old(args), key, j) < i && cell(args, kept(old(args), key, j)) == cell(old(args), j)
 //@     decreases n - i
 
 // delAllArgs has to do the same: deleting one name must not change the order of the entries kept.
+//   It also has to keep the slots behind the new length usable: allocArg recycles them together with their key/value
+//   buffers, so no slot there may still share its buffers with an entry that was kept. In the model that is the
+//   statement that the slots of args[0:len] hold pairwise distinct elements before (the storage layer's ownership
+//   invariant) and after -- a swap keeps it, a plain copy `args[n] = args[i]` leaves the element in two slots.
 //@ func delAllArgs results r
 //@   property C29
 //@   frame assumed
 //@   modifies args
+//@   requires[entries-own-their-buffers] forall a in [0, len(args)): forall b in [0, len(args)): a != b ==> cell(args, a) != cell(args, b)
+//@   ensures[no-slot-shares-an-element] forall a in [0, len(args)): forall b in [0, len(args)): a != b ==> cell(args, a) != cell(args, b)
 //@   ensures[length] len(r) == kept(old(args), key, len(old(args)))
 //@   ensures[order-kept] forall j in [0, len(old(args))): !keyIs(old(args), key, j) ==> cell(r, kept(old(args), key, j)) == cell(old(args), j)
 //@   loop 1:
@@ -38,6 +47,7 @@ package fasthttp
 //@     invariant[count] n == kept(old(args), key, i)
 //@     invariant[head-kept] forall j in [0, i): !keyIs(old(args), key, j) ==> 0 <= kept(old(args), key, j) && kept(old(args), key, j) < n && cell(args, kept(old(args), key, j)) == cell(old(args), j)
 //@     invariant[tail-untouched] forall t in [i, len(args)): cell(args, t) == cell(old(args), t)
+//@     invariant[slots-distinct] forall a in [0, len(args)): forall b in [0, len(args)): a != b ==> cell(args, a) != cell(args, b)
 //@     decreases len(args) - i
 
 // first(o, key, n): index of the first entry named key among the first n, or n when there is none.
